@@ -50,7 +50,7 @@ func genFlat(t *rapid.T) FlatCase {
 	}
 	n := rapid.IntRange(0, 24).Draw(t, "n")
 	for i := 0; i < n; i++ {
-		p := FP{G: rapid.IntRange(0, groups-1).Draw(t, "g"), DC: rapid.SampledFrom([]string{"d0", "d1", "d2", "d0", "d1", ""}).Draw(t, "dc"), X: rapid.SampledFrom([]string{"a", "b"}).Draw(t, "x"),
+		p := FP{G: rapid.IntRange(0, groups-1).Draw(t, "g"), DC: rapid.SampledFrom([]string{"d0", "d1", "d2", "d0", "d1", ""}).Draw(t, "dc"), X: rapid.SampledFrom([]string{"a", "b", "a", ""}).Draw(t, "x"),
 			Gap: rapid.SampledFrom([]int64{0, 0, 0, 4e8, 6e8, 1e9, 1e9, 3e9}).Draw(t, "gap"), I: int64(rapid.IntRange(0, 9).Draw(t, "i")), S: rapid.SampledFrom([]string{"p", "q"}).Draw(t, "s")}
 		if c.Batch {
 			p.Cut = i == 0 || rapid.IntRange(0, 4).Draw(t, "cut") == 0
